@@ -40,6 +40,14 @@
 using namespace verif;
 using c18::u128;
 
+// Stage c18_ndebug (-DC18_NDEBUG_LIB, library objects compiled with -DNDEBUG): the same oracles, subcheck names with the suffix _nd
+#ifdef C18_NDEBUG_LIB
+#define C18_SFX "_nd"
+#else
+#define C18_SFX ""
+#endif
+#define NM(x) x C18_SFX
+
 static const uint64_t kBoundaries[4] = {1000000ULL, 60000000ULL, 3600000000ULL, 86400000000ULL};
 
 // ---------------------------------------------------------------- ambient errno
@@ -130,7 +138,7 @@ static void enum_duration(Enum& e) {
   for (uint64_t b : kBoundaries) {
     for (uint64_t u = b - 3000; u <= b + 3000 && !e.stop; u++, idx++) {
       if (!e.mine(idx)) continue;
-      for (int p = -1; p <= 6; p++) e.exec(Case("duration").N(u).I(p).N(errno_for(u * 8 + static_cast<uint64_t>(p + 1))));
+      for (int p = -1; p <= 6; p++) e.exec(Case(NM("duration")).N(u).I(p).N(errno_for(u * 8 + static_cast<uint64_t>(p + 1))));
     }
   }
   // stride-997 sweep of the +-2 s windows
@@ -138,7 +146,7 @@ static void enum_duration(Enum& e) {
     uint64_t lo = b >= 2000000ULL ? b - 2000000ULL : 0, hi = b + 2000000ULL;
     for (uint64_t u = lo; u <= hi && !e.stop; u += 997, idx++) {
       if (!e.mine(idx)) continue;
-      for (int p = -1; p <= 6; p++) e.exec(Case("duration").N(u).I(p).N(errno_for(u * 8 + static_cast<uint64_t>(p + 1))));
+      for (int p = -1; p <= 6; p++) e.exec(Case(NM("duration")).N(u).I(p).N(errno_for(u * 8 + static_cast<uint64_t>(p + 1))));
     }
   }
   // every field combination once: d in {0,1,9,10,99,100}, h, m, s at their extremes, sub-second ties
@@ -150,7 +158,7 @@ static void enum_duration(Enum& e) {
         for (uint64_t s : {0ULL, 1ULL, 5ULL, 9ULL, 10ULL, 59ULL}) {
           for (uint64_t f : {0ULL, 1ULL, 499999ULL, 500000ULL, 500001ULL, 949999ULL, 950000ULL, 999499ULL, 999500ULL, 999999ULL}) {
             uint64_t u = ((d * 24 + h) * 60 + m) * 60000000ULL + s * 1000000ULL + f;
-            for (int p = -1; p <= 6; p++) e.exec(Case("duration").N(u).I(p).N(errno_for(u * 8 + static_cast<uint64_t>(p + 1))));
+            for (int p = -1; p <= 6; p++) e.exec(Case(NM("duration")).N(u).I(p).N(errno_for(u * 8 + static_cast<uint64_t>(p + 1))));
           }
         }
       }
@@ -189,7 +197,7 @@ static Case gen_duration() {
     default: u = vg::interesting64() >> 1; break;
   }
   if (u > (1ULL << 63)) u = 1ULL << 63;
-  return Case("duration").N(u).I(p).N(gen_errno());
+  return Case(NM("duration")).N(u).I(p).N(gen_errno());
 }
 
 #ifndef C18_SWEEP_ONLY
@@ -305,7 +313,7 @@ static void enum_time(Enum& e) {
     if (!e.mine(bidx)) continue;
     // the block runs under one TZ setting (rotating over the list from block to block)
     std::string tz = kTZs[bidx % kNumTZs];
-    e.journal_block(Case("time").N(static_cast<uint64_t>(d0) * c18::kUsecPerDay).N(0).S(tz));
+    e.journal_block(Case(NM("time")).N(static_cast<uint64_t>(d0) * c18::kUsecPerDay).N(0).S(tz));
     int64_t d1 = std::min<int64_t>(d0 + block, c18::kLastDay + 1);
     uint64_t n = 0;
     bool bad = false;
@@ -329,7 +337,7 @@ static void enum_time(Enum& e) {
         }
         if (!ok) {
           zone.reset();
-          e.exec_light(Case("time").N(t).N(en).S(tz));
+          e.exec_light(Case(NM("time")).N(t).N(en).S(tz));
           bad = true;
           break;
         }
@@ -338,7 +346,7 @@ static void enum_time(Enum& e) {
     zone.reset();
     e.x.count(n);
     // one fully journalled case per block keeps the reference cross-checks (std::chrono, slow count) in play
-    e.exec(Case("time").N(static_cast<uint64_t>(d0) * c18::kUsecPerDay + 86399ULL * 1000000 + 999999).N(0).S(tz_for(bidx)));
+    e.exec(Case(NM("time")).N(static_cast<uint64_t>(d0) * c18::kUsecPerDay + 86399ULL * 1000000 + 999999).N(0).S(tz_for(bidx)));
   }
   // every day of the years around leap-rule corners through the full oracle
   uint64_t idx = 0;
@@ -347,7 +355,7 @@ static void enum_time(Enum& e) {
     for (int64_t d = first; d < first + (c18::is_leap(y) ? 366 : 365) && !e.stop; d++, idx++) {
       if (!e.mine(idx)) continue;
       for (uint64_t s : {0ULL, 59ULL, 3599ULL, 3600ULL, 43200ULL, 86399ULL})
-        e.exec(Case("time").N(static_cast<uint64_t>(d) * c18::kUsecPerDay + s * 1000000 + (mix(idx, s) % 1000000)).N(errno_for(idx * 8 + s)).S(tz_for(idx * 8 + s)));
+        e.exec(Case(NM("time")).N(static_cast<uint64_t>(d) * c18::kUsecPerDay + s * 1000000 + (mix(idx, s) % 1000000)).N(errno_for(idx * 8 + s)).S(tz_for(idx * 8 + s)));
     }
   }
   // every listed TZ setting x the hours of one winter and one summer day (DST rules of either hemisphere), the first and the last day of the domain
@@ -355,7 +363,7 @@ static void enum_time(Enum& e) {
     if (!e.mine(idx++)) continue;
     for (int64_t day : {int64_t(0), c18::days_from_civil_slow(2024, 1, 15), c18::days_from_civil_slow(2024, 7, 15), c18::days_from_civil_slow(2038, 1, 19), c18::kLastDay})
       for (uint64_t h = 0; h < 24; h++)
-        e.exec(Case("time").N(static_cast<uint64_t>(day) * c18::kUsecPerDay + h * 3600 * kSecond + (mix(z, h) % kSecond)).N(errno_for(z * 24 + h)).S(kTZs[z]));
+        e.exec(Case(NM("time")).N(static_cast<uint64_t>(day) * c18::kUsecPerDay + h * 3600 * kSecond + (mix(z, h) % kSecond)).N(errno_for(z * 24 + h)).S(kTZs[z]));
   }
   e.complete(cat("second 0, 59 and 86399 of every day 1970-01-01..9999-12-31 (microseconds 0 / 999999 / hashed; TZ setting rotating over ", kNumTZs,
       " values from one block of 2048 days to the next); every day of 1970, 1972, 1999, 2000, 2001, 2038, 2100, 2400, 9999 x 6 times of day (TZ rotating); every listed TZ setting x every hour of 1970-01-01, 2024-01-15, 2024-07-15, 2038-01-19, 9999-12-31"));
@@ -391,7 +399,7 @@ static Case gen_time() {
   }
   uint64_t us = vg::chance(1, 4) ? vg::pick<uint64_t>({0, 1, 9, 10, 99999, 100000, 999999}) : vg::below(1000000);
   if (day > static_cast<uint64_t>(c18::kLastDay)) day = c18::kLastDay;
-  Case c("time");
+  Case c(NM("time"));
   c.N(day * c18::kUsecPerDay + sod * 1000000 + us).N(gen_errno());
   gen_tz(c);
   return c;
@@ -499,7 +507,7 @@ static void enum_time_seq(Enum& e) {
               if (up ? (base + d >= kEndOfDomain) : (base < d)) continue;
               uint64_t other = up ? base + d : base - d;
               // there and back, then the neighbouring microsecond of each
-              e.exec(Case("time_seq").N(errno_for(idx * 64 + di)).N(base).N(other).N(base).N(other ^ 1).N(base ^ 1).S(tz_for((idx * 64 + di) * 128 + k * 2 + up)));
+              e.exec(Case(NM("time_seq")).N(errno_for(idx * 64 + di)).N(base).N(other).N(base).N(other ^ 1).N(base ^ 1).S(tz_for((idx * 64 + di) * 128 + k * 2 + up)));
             }
           }
         }
@@ -512,7 +520,7 @@ static void enum_time_seq(Enum& e) {
 }
 
 static Case gen_time_seq() {
-  Case c("time_seq");
+  Case c(NM("time_seq"));
   c.N(gen_errno());
   uint64_t t = gen_time().u(0);
   c.N(t);
@@ -655,8 +663,8 @@ static void enum_size(Enum& e) {
   for (size_t i = 0; i < v.size() && !e.stop; i++) {
     if (!e.mine(i)) continue;
     for (uint64_t en : {0, ERANGE, EINVAL, EINTR}) {
-      e.exec(Case("size").N(v[i]).N(0).N(en));
-      e.exec(Case("size").N(v[i]).N(1).N(en));
+      e.exec(Case(NM("size")).N(v[i]).N(0).N(en));
+      e.exec(Case(NM("size")).N(v[i]).N(1).N(en));
     }
   }
   // every size up to 4 MiB + a bit (all KB mantissas, the KB->MB hand-over)
@@ -665,7 +673,7 @@ static void enum_size(Enum& e) {
   for (uint64_t s0 = 0; s0 < lim && !e.stop; s0 += block) {
     if (!e.mine(s0 / block)) continue;
     for (uint64_t s = s0; s < s0 + block; s++) {
-      e.exec(Case("size").N(s).N((s >> 3) & 1).N(errno_for(s)));
+      e.exec(Case(NM("size")).N(s).N((s >> 3) & 1).N(errno_for(s)));
     }
   }
   e.complete(cat(v.size(), " boundary sizes (1024^k +-3 for k=1..6, mantissa rounding corners x.995 / 1023.995 of every unit, 2^k and 2^k+-1, the 16.00 EB edge) x both include_bytes x incoming errno {0, ERANGE, EINVAL, EINTR}; every size below ", lim, " (incoming errno rotating over 10 values)"));
@@ -692,7 +700,7 @@ static Case gen_size() {
     case 3: s = vg::interesting64(); break;
     default: s = (1ULL << (10 * (1 + vg::below(6)))) * (1 + vg::below(1023)) + vg::below(3) - 1; break;
   }
-  return Case("size").N(s).N(vg::below(2)).N(gen_errno());
+  return Case(NM("size")).N(s).N(vg::below(2)).N(gen_errno());
 }
 
 // case: n = [integer part, fraction digits (count 0..6), fraction value, unit 0..6, style bits, incoming errno]
@@ -732,11 +740,11 @@ static void enum_parse_size(Enum& e) {
         if (!e.mine(idx)) continue;
         if (k == 0 && (style & 1)) continue;
         for (uint64_t en : {0, ERANGE, EINVAL, EILSEQ, EINTR}) {
-          e.exec(Case("parse_size").N(ip).N(0).N(0).N(k).N(style).N(en));
-          for (uint64_t f : {0ULL, 1ULL, 5ULL, 25ULL, 50ULL, 75ULL, 99ULL}) e.exec(Case("parse_size").N(ip).N(2).N(f).N(k).N(style).N(en));
-          for (uint64_t f : {0ULL, 5ULL, 9ULL}) e.exec(Case("parse_size").N(ip).N(1).N(f).N(k).N(style).N(en));
-          e.exec(Case("parse_size").N(ip).N(6).N(999999).N(k).N(style).N(en));
-          e.exec(Case("parse_size").N(ip).N(3).N(125).N(k).N(style).N(en));
+          e.exec(Case(NM("parse_size")).N(ip).N(0).N(0).N(k).N(style).N(en));
+          for (uint64_t f : {0ULL, 1ULL, 5ULL, 25ULL, 50ULL, 75ULL, 99ULL}) e.exec(Case(NM("parse_size")).N(ip).N(2).N(f).N(k).N(style).N(en));
+          for (uint64_t f : {0ULL, 5ULL, 9ULL}) e.exec(Case(NM("parse_size")).N(ip).N(1).N(f).N(k).N(style).N(en));
+          e.exec(Case(NM("parse_size")).N(ip).N(6).N(999999).N(k).N(style).N(en));
+          e.exec(Case(NM("parse_size")).N(ip).N(3).N(125).N(k).N(style).N(en));
         }
       }
     }
@@ -749,7 +757,7 @@ static Case gen_parse_size() {
   uint64_t k = vg::below(7), fd = vg::below(7);
   uint64_t max_ip = (k == 6) ? 14 : (k == 0 ? (1ULL << 62) : ((1ULL << (63 - 10 * k)) - 1));
   uint64_t ip = vg::coin() ? vg::below(std::min<uint64_t>(max_ip, 2000) + 1) : vg::u64() % (max_ip + 1);
-  return Case("parse_size").N(ip).N(fd).N(vg::below(pow10[fd])).N(k).N(vg::below(32)).N(gen_errno());
+  return Case(NM("parse_size")).N(ip).N(fd).N(vg::below(pow10[fd])).N(k).N(vg::below(32)).N(gen_errno());
 }
 
 // ---------------------------------------------------------------- timeval
@@ -780,16 +788,16 @@ static void enum_timeval(Enum& e) {
     for (uint64_t us : {0ULL, 1ULL, 499999ULL, 500000ULL, 999998ULL, 999999ULL}) {
       uint64_t u = s * 1000000 + us;
       if (u >> 63) continue;
-      if (e.mine(idx++)) e.exec(Case("timeval").N(u));
+      if (e.mine(idx++)) e.exec(Case(NM("timeval")).N(u));
     }
   }
   uint64_t small = e.thorough() ? 3000000 : 300000;
   for (uint64_t u = 0; u < small && !e.stop; u += 1) {
-    if (e.mine(u >> 12)) e.exec(Case("timeval").N(u * 7919 % 3000017));
+    if (e.mine(u >> 12)) e.exec(Case(NM("timeval")).N(u * 7919 % 3000017));
   }
   for (int k = 0; k < 63; k++)
     for (uint64_t u : {(1ULL << k) - 1, 1ULL << k, (1ULL << k) + 1})
-      if (!(u >> 63) && e.mine(idx++)) e.exec(Case("timeval").N(u));
+      if (!(u >> 63) && e.mine(idx++)) e.exec(Case(NM("timeval")).N(u));
   e.complete(cat("second boundaries (0, 59/60, 86399/86400, 2^31, 2^32, year 9999, the 2^63 us limit) x microsecond extremes; ", small, " values below 3,000,017 us (u*7919 mod 3000017); 2^k, 2^k+-1"));
 }
 
@@ -801,15 +809,192 @@ static Case gen_timeval() {
     case 2: u = vg::interesting64() >> 1; break;
     default: u = vg::u64() >> 1; break;
   }
-  return Case("timeval").N(u);
+  return Case(NM("timeval")).N(u);
 }
+
+
+// ---------------------------------------------------------------- build configuration of the library: -DNDEBUG
+//
+// Time.cc and Strings.cc are compiled translation units: what a consumer links is whatever configuration the library was built
+// in, and CMake's Release / RelWithDebInfo / MinSizeRel configurations (every packaged build) define NDEBUG. The statement
+// holds for the library, not for one build of it, so stage c18_ndebug links this harness against library objects compiled with
+// -DNDEBUG (lib_defs in run/props.d/C18.py) and runs every oracle again on a reduced plan: the random generators of all six
+// families plus the small enumerations below. (The harness itself is compiled as always and does not use assert().)
+#ifdef C18_NDEBUG_LIB
+static void enum_nd_duration(Enum& e) {
+  uint64_t idx = 0;
+  for (uint64_t b : kBoundaries)
+    for (uint64_t u = b - 60; u <= b + 60 && !e.stop; u++, idx++) {
+      if (!e.mine(idx)) continue;
+      for (int p = -1; p <= 6; p++) e.exec(Case(NM("duration")).N(u).I(p).N(errno_for(u * 8 + static_cast<uint64_t>(p + 1))));
+    }
+  for (uint64_t d : {0ULL, 1ULL, 10ULL, 106751991ULL})
+    for (uint64_t h : {0ULL, 9ULL, 23ULL})
+      for (uint64_t m : {0ULL, 9ULL, 59ULL}) {
+        if (!e.mine(idx++)) continue;
+        for (uint64_t s : {0ULL, 9ULL, 59ULL})
+          for (uint64_t f : {0ULL, 499999ULL, 500000ULL, 999500ULL, 999999ULL}) {
+            uint64_t u = ((d * 24 + h) * 60 + m) * 60000000ULL + s * 1000000ULL + f;
+            for (int p = -1; p <= 6; p++) e.exec(Case(NM("duration")).N(u).I(p).N(errno_for(u * 8 + static_cast<uint64_t>(p + 1))));
+          }
+      }
+  e.complete("NDEBUG library: every microsecond within +-60 us of 1 s, 60 s, 3600 s, 86400 s and a grid of day/hour/minute/second/fraction extremes x precision -1..6");
+}
+static void enum_nd_time(Enum& e) {
+  // one time of day (rotating over second 0 / 59 / 86399 and a hashed one) of every 5th day of the domain, every day of three corner years
+  uint64_t idx = 0;
+  for (int64_t d = 0; d <= c18::kLastDay && !e.stop; d += 5, idx++) {
+    if (!e.mine(idx >> 6)) continue;
+    static const uint64_t secs[4] = {0, 59, 86399, 43200};
+    uint64_t s = (idx & 3) == 3 ? mix(idx, 3) % 86400 : secs[idx & 3];
+    e.exec(Case(NM("time")).N(static_cast<uint64_t>(d) * c18::kUsecPerDay + s * 1000000 + (mix(idx, 7) % 1000000)).N(errno_for(idx)).S(tz_for(idx >> 6)));
+  }
+  for (int64_t y : {1970, 2000, 2100, 9999}) {
+    int64_t first = c18::days_from_civil_slow(y, 1, 1);
+    for (int64_t d = first; d < first + (c18::is_leap(y) ? 366 : 365) && !e.stop; d++, idx++) {
+      if (!e.mine(idx >> 3)) continue;
+      e.exec(Case(NM("time")).N(static_cast<uint64_t>(d) * c18::kUsecPerDay + 86399ULL * 1000000 + (mix(idx, 9) % 1000000)).N(errno_for(idx)).S(tz_for(idx)));
+    }
+  }
+  e.complete("NDEBUG library: one time of day of every 5th day 1970-01-01..9999-12-31 (second 0 / 59 / 86399 / hashed, hashed microseconds, TZ rotating); 23:59:59 of every day of 1970, 2000, 2100, 9999");
+}
+static void enum_nd_size(Enum& e) {
+  std::vector<uint64_t> v = {0, 1, 999, 1023};
+  for (unsigned k = 1; k <= 6; k++) {
+    uint64_t u = 1ULL << (10 * k);
+    for (int d = -3; d <= 3; d++) v.push_back(u + d);
+    v.push_back(u + u / 2);
+    v.push_back(u * 2 - 1);
+  }
+  for (int k = 0; k < 64; k++) v.push_back((1ULL << k) + 1);
+  v.push_back(UINT64_MAX);
+  for (size_t i = 0; i < v.size() && !e.stop; i++) {
+    if (!e.mine(i)) continue;
+    e.exec(Case(NM("size")).N(v[i]).N(0).N(errno_for(i)));
+    e.exec(Case(NM("size")).N(v[i]).N(1).N(errno_for(i + 1)));
+  }
+  for (uint64_t s0 = 0; s0 < (1100ULL << 10) && !e.stop; s0 += 4096) {
+    if (!e.mine(s0 / 4096)) continue;
+    for (uint64_t s = s0 + (mix(s0, 1) % 37); s < s0 + 4096; s += 37) e.exec(Case(NM("size")).N(s).N((s >> 3) & 1).N(errno_for(s)));
+  }
+  e.complete(cat("NDEBUG library: ", v.size(), " boundary sizes (1024^k +-3, 1.5 x and 2 x 1024^k - 1, 2^k+1, 2^64-1) x both include_bytes; every 37th size below 1.1 MiB"));
+}
+#endif // C18_NDEBUG_LIB
+
+// ---------------------------------------------------------------- ambient state: after main() (static destruction, atexit)
+//
+// "format_duration never throws", "format_time renders any timestamp", "format_size and parse_size agree for every size": total
+// functions of their arguments with no "no longer usable" phase. A program may call them while it shuts down - the destructor of
+// a process-lifetime statistics / cache / log object that prints byte totals and elapsed times, an atexit handler that writes a
+// summary line - i.e. AFTER main() has returned. Whatever the functions set up lazily on first use (function-local statics:
+// tables, buffers) was constructed after the objects below and is therefore destroyed BEFORE their handlers run. (Same
+// construction as C10's after_main.)
+//   * `g_after_main` is a namespace-scope object of this translation unit, which is linked before the library objects: it is
+//     constructed before the library's own namespace-scope objects and before anything first used inside main(), hence destroyed
+//     after all of them. Its constructor calls nothing of the library.
+//   * an atexit handler is registered as the first statement of main(), before any library function was called.
+// prime() - called from main() before the subchecks, also on the replay path - calls every function on fixed inputs (first use
+// inside main()) and stores the results; the subchecks establish that results obtained inside main() are right. Both handlers
+// repeat the calls and compare. A handler cannot throw: on a mismatch (or an exception) it prints
+// `VERIF-ABORT: after-main-<function>` and _exit(79)s; the driver reports a shard that dies outside a case as
+// `<stage>/crash:abort:after-main-<function>` (ASan reports a use-after-free by itself). On success it is silent.
+namespace after_main {
+
+struct Call {
+  int fn; // 0 format_duration  1 format_time  2 format_size  3 parse_size  4 usecs_to_timeval / timeval_to_usecs
+  uint64_t a;
+  int64_t b;
+  std::string text; // parse_size input
+  std::string result; // rendered result stored by prime()
+};
+struct State {
+  bool primed = false;
+  std::vector<Call> calls;
+  ~State(); // the "destructor of a static object constructed before the first call"
+};
+static State g_after_main;
+
+static const char* fn_name(int fn) {
+  static const char* const names[] = {"format_duration", "format_time", "format_size", "parse_size", "timeval"};
+  return names[fn];
+}
+static std::string eval(const Call& c) {
+  switch (c.fn) {
+    case 0: return phosg::format_duration(c.a, static_cast<int8_t>(c.b));
+    case 1: return phosg::format_time(c.a);
+    case 2: return phosg::format_size(static_cast<size_t>(c.a), c.b != 0);
+    case 3: return std::to_string(static_cast<unsigned long long>(phosg::parse_size(c.text.c_str())));
+    default: {
+      struct timeval tv = phosg::usecs_to_timeval(c.a);
+      return cat(static_cast<long long>(tv.tv_sec), "s+", static_cast<long long>(tv.tv_usec), "us=", phosg::timeval_to_usecs(tv));
+    }
+  }
+}
+static void call_all(const char* phase) {
+  for (Call& c : g_after_main.calls) {
+    std::string got;
+    bool threw = false;
+    try {
+      got = eval(c);
+    } catch (const std::exception& ex) {
+      threw = true;
+      got = cat("exception ", typeid(ex).name(), ": ", ex.what());
+    }
+    if (!phase) {
+      c.result = got;
+      if (threw) throw std::logic_error(cat("C18 after_main::prime: ", fn_name(c.fn), " threw inside main(): ", got));
+      continue;
+    }
+    if (threw || got != c.result) {
+      fprintf(stderr, "\nVERIF-ABORT: after-main-%s (%s(%s%llu, %lld) called %s gave \"%s\"; the same call inside main() gave \"%s\")\n", fn_name(c.fn), fn_name(c.fn),
+          c.fn == 3 ? cat("\"", c.text, "\" / ").c_str() : "", static_cast<unsigned long long>(c.a), static_cast<long long>(c.b), phase, got.c_str(), c.result.c_str());
+      fflush(stderr);
+      _exit(79);
+    }
+  }
+}
+State::~State() {
+  if (primed) call_all("from the destructor of a namespace-scope object constructed before main() (static destruction, after main() returned)");
+}
+static void atexit_handler() {
+  if (g_after_main.primed) call_all("from an atexit handler registered at the start of main() (after main() returned)");
+}
+// first statement of main(): nothing of the library has run yet
+static void arm() {
+  if (atexit(atexit_handler) != 0) throw std::logic_error("C18: atexit failed");
+}
+static void prime() {
+  State& st = g_after_main;
+  for (uint64_t u : {0ULL, 999999ULL, 1000000ULL, 59999999ULL, 3600000000ULL, 90061000001ULL, 1ULL << 62})
+    for (int64_t p : {-1, 0, 3, 6}) st.calls.push_back({0, u, p, "", ""});
+  for (uint64_t t : {0ULL, 951782400123456ULL, 1709251199999999ULL, 4102444800000000ULL, 253402300799999999ULL}) st.calls.push_back({1, t, 0, "", ""});
+  for (uint64_t s : {0ULL, 1023ULL, 1024ULL, 1536ULL, (1ULL << 20) + 1, 3ULL << 30, 20000000000ULL, 1ULL << 40, (1ULL << 50) + 7, 1ULL << 60, 3ULL << 61, ~0ULL})
+    for (int64_t ib : {0, 1}) st.calls.push_back({2, s, ib, "", ""});
+  for (const char* t : {"0", "1023", "7 bytes", "1 KB", "1.5 MB", "3GB", "2 TB", "4 PB", "1 EB", "2.25 GB", "15.5 EB"}) st.calls.push_back({3, 0, 0, t, ""});
+  for (uint64_t u : {0ULL, 999999ULL, 1000001ULL, 1709251199999999ULL}) st.calls.push_back({4, u, 0, "", ""});
+  call_all(nullptr);
+  st.primed = true;
+}
+
+} // namespace after_main
 
 #endif // !C18_SWEEP_ONLY
 
 int main(int argc, char** argv) {
+#ifndef C18_SWEEP_ONLY
+  after_main::arm();
+  after_main::prime();
+#endif
   std::vector<SubCheck> checks;
-#ifdef C18_SWEEP_ONLY
+#if defined(C18_SWEEP_ONLY)
   checks.push_back({"duration_sweep", run_duration, gen_duration, 2000000, 40000000, 100, enum_duration_sweep});
+#elif defined(C18_NDEBUG_LIB)
+  checks.push_back({NM("duration"), run_duration, gen_duration, 30000, 300000, 100, enum_nd_duration});
+  checks.push_back({NM("time"), run_time, gen_time, 30000, 300000, 100, enum_nd_time});
+  checks.push_back({NM("time_seq"), run_time_seq, gen_time_seq, 4000, 40000, 100, nullptr});
+  checks.push_back({NM("size"), run_size, gen_size, 30000, 300000, 100, enum_nd_size});
+  checks.push_back({NM("parse_size"), run_parse_size, gen_parse_size, 10000, 100000, 100, nullptr});
+  checks.push_back({NM("timeval"), run_timeval, gen_timeval, 10000, 100000, 100, nullptr});
 #else
   checks.push_back({"duration", run_duration, gen_duration, 100000, 2000000, 100, enum_duration});
   checks.push_back({"time", run_time, gen_time, 60000, 1000000, 100, enum_time});
